@@ -19,7 +19,7 @@ CHECKS = {
  "C10": ("exploration", "DESIGN.md §4 C10",
          "deterministic simulation: file store on a simulated disk with 'restart' (new process state, new Store on the same tree, with or without simulated time passing) and retention scans as generated operations; reference model unchanged across restarts",
          "Seeded search over operation histories with 0..n clean restarts at arbitrary points; every observation before and after each restart must match the reference model.",
-         "Trusted: reference model, simulated disk. Restart = same directory tree, new Store object, package-level process state (the message id counter) starts over as in a new process (overlay generated into the scratch copy, DESIGN §11.2), clock advanced by 0 s .. several seconds; a restart may come with a different mailbox cap; 1/30 of the histories start in a process that has already issued ~9 990 ids (counter wrap). Ids must be unique among the messages present and never reused within one process lifetime; reuse of a removed message's id across a restart is counted, not demanded (DESIGN §11.8)."),
+         "Trusted: reference model, simulated disk. Restart = same directory tree, new Store object, package-level process state (the message id counter) starts over as in a new process (overlay generated into the scratch copy, DESIGN §11.2), clock advanced by 0 s .. several seconds; a restart may come with a different mailbox cap; 1/30 of the histories start in a process that has already issued ~9 990 ids (counter wrap); half of the histories have a disk fault (error window, stall, or EMFILE on opens for reading) during one mutating operation, which then either succeeds completely or fails leaving the mailbox as before (or, for mark-seen/remove/purge, as after). Ids must be unique among the messages present and never reused within one process lifetime; reuse of a removed message's id across a restart is counted, not demanded (DESIGN §11.8)."),
  "C11": ("fault_enumeration", "DESIGN.md §4 C11",
          "deterministic simulation with crash injection: a crash image of the simulated disk is taken before EVERY file-system mutation step (and at partial lengths of every write call) of every mutating operation; each image is reopened and checked against the before/after reference models",
          "Crash points are enumerated exhaustively within each sampled history (every mkdir/create/write/rename/remove/rmdir step, partial writes included); histories are seeded samples. Each image must list and visit without error, keep untouched mailboxes intact with full content, show the interrupted operation as all-or-nothing, and accept a new delivery that leaves the surviving mail intact (the restarted process starts its id counter over). A second client runs concurrently, so crash images with two operations in flight are covered.",
